@@ -22,6 +22,24 @@ theorem started_before_spawn_returns :
        .inboxStart true] := by
   decide +kernel
 
+/-- general form of the previous statement: for EVERY restart budget, chain length and crash script
+    (crashes in Initialized / Started of any incarnation included), when `spawn` returns the actor is
+    either alive with Started handled by its current incarnation (phase `started`: Initialized and
+    Started delivered, in that order, no Stopped), or it has ended: final Stopped handled, inbox
+    closed. Nothing in between is ever visible to the caller of Spawn. -/
+theorem spawn_returns_started_or_ended (max mw : Nat) (script : List Outcome) :
+    let s := (spawn (3 * script.length + 6) max mw script).1
+    lifecycleOK s.trace = true ∧
+    (s.stopped = false → (lcRun s.trace).phase = .started) ∧
+    (s.stopped = true → (lcRun s.trace).phase = .stopped ∧ s.inboxOpen = false) := by
+  have h := Shape.spawn_post (3 * script.length + 6) max mw script (by omega)
+  exact ⟨h.2.1.1, h.2.2.2, h.2.2.1⟩
+
+/-- non-vacuity of both branches: a clean spawn is alive and started; a spawn whose Started handler
+    panics with no budget ends stopped. -/
+example : (spawn 6 0 0 []).1.stopped = false ∧ (spawn 12 0 0 [.ok, .panic]).1.stopped = true := by
+  decide +kernel
+
 /-- non-vacuity: a history with a crash during replay and a pill in the replay buffer (the shape
     that used to re-open the inbox after Stopped, defect D2) is accepted and ends stopped. -/
 example :
